@@ -5,6 +5,7 @@ import CpModel.Config
 import CpModel.ConfigHist
 import CpModel.ConfigNs
 import CpModel.ConfigUpdate
+import CpModel.ConfigIni
 import CpModel.Unrepr
 import CpModel.UnreprIO
 /-!
@@ -24,6 +25,9 @@ import CpModel.UnreprIO
           (cherrypy.config.update of a flat dict (F) or of an INI file / dict of sections (S); live environments table)
     fc <sections> <path> <key> <default: - | val>        → `V=<val>` | `V=-`
     build <ast>                                            → `ok <val>` | `err <class>`      (reprconf._Builder)
+    ini <I|L> <DEFAULT options> <sections>                 → `ok <section>|<option>~<text>,…;…` | `err <kind>`
+          (Parser.as_dict before unrepr; I = identity optionxform (Parser), L = lower-casing (stock);
+           options = `E` | <name>~<raw>,…   sections = `-` | <name>|<options>;…)
     nameorigin <id> <importable 0|1> <builtin 0|1>         → K | M | B | -                   (build_Name lookup order)
     toast <val>                                            → `<ast>`                         (AST of repr(val))
 
@@ -70,8 +74,34 @@ def parsePlugin (s : String) : Option (Name × Bool) :=
   | [n, b] => do pure (← parseName n, b == "1")
   | _ => none
 
+def parseOpt (s : String) : Option (List Char × List Char) :=
+  match s.splitOn "~" with
+  | [n, v] => do pure (← Proto.untext? n, ← Proto.untext? v)
+  | _ => none
+
+def parseOpts (s : String) : Option ConfigIni.Opts :=
+  if s == "E" then some [] else (s.splitOn ",").mapM parseOpt
+
+def parseIniSection (s : String) : Option (List Char × ConfigIni.Opts) :=
+  match s.splitOn "|" with
+  | [n, o] => do pure (← Proto.untext? n, ← parseOpts o)
+  | _ => none
+
+def showIniErr : ConfigIni.IniErr → String
+  | .syntaxErr => "syntax" | .missingOption => "missing" | .depth => "depth" | .duplicateOption => "duplicate"
+
 def step (line : String) : String :=
   match Proto.fields line with
+  | ["ini", xf, dflt, secs] =>
+    match parseOpts dflt, parseList ";" parseIniSection secs with
+    | some d, some ss =>
+      let f : List Char → List Char := if xf == "L" then ConfigIni.lowerAscii else id
+      match ConfigIni.asDictTexts f { defaults := d, sections := ss } with
+      | .error e => "err " ++ showIniErr e
+      | .ok r =>
+        "ok " ++ (if r.isEmpty then "-" else ";".intercalate (r.map fun (n, os) =>
+          Proto.text n ++ "|" ++ (if os.isEmpty then "E" else ",".intercalate (os.map fun (o, t) => Proto.text o ++ "~" ++ Proto.text t))))
+    | _, _ => "bad-op"
   | ["ns", hs, conf] =>
     match parseList ";" parseHandler hs, parseConf conf with
     | some handlers, some c =>
